@@ -29,6 +29,8 @@ class ServicesManager:
         # so we need to introduce a lock to ensure the access to the dictionary is concurrent safe.
         self._access_dict_lock = asyncio.Lock()
         self._service_dict = {}
+        # sid -> [(service, future)], the connections waiting for the running connection of the same sid
+        self._waiting_dict = {}
 
     async def create_service(self, sid: str, websocket: WebSocketServerProtocol):
         short_sid = shorten_sid(sid)  # shorten sid for display and log
@@ -38,7 +40,6 @@ class ServicesManager:
         service = Service(sid, websocket)
 
         if sid in self._service_dict:
-            prev_server = self._service_dict[sid]
             reason = f"Service {short_sid} is already running, we need to wait for the previous connection to close..."
             logger.warning(reason)
             # In the previous practice, if the previous connection was not closed,
@@ -46,9 +47,16 @@ class ServicesManager:
             # So we need to send a control message to the client to tell it
             # to wait for the previous connection to close.
             service.send_message(MsgType.CONTROL, reason.encode('utf8'))
-            await prev_server.wait_closed()  # wait for the previous socket to close
-
-        async with self._access_dict_lock:
+            # Connections of the same sid are served one at a time, in order of arrival:
+            # the cleanup of the previous connection registers the next waiting one and wakes it up.
+            turn = asyncio.get_running_loop().create_future()
+            self._waiting_dict.setdefault(sid, []).append((service, turn))
+            await turn
+            # the stored state may have been changed by the connections served while we were waiting
+            service.load_stored_state()
+        else:
+            # checking and registering must not be separated by an await,
+            # otherwise two connections of the same sid could both be registered
             self._service_dict[sid] = service
         clean_task = asyncio.create_task(self.clean_service_when_close_connection(sid, websocket))
         await service.start()  # run forever! do not use asyncio.create_task
@@ -60,4 +68,9 @@ class ServicesManager:
             await asyncio.sleep(1)
             self._service_dict[sid].close_service()
             del self._service_dict[sid]
+            if self._waiting_dict.get(sid):
+                # hand over to the connection that has been waiting longest
+                next_service, turn = self._waiting_dict[sid].pop(0)
+                self._service_dict[sid] = next_service
+                turn.set_result(None)
         logger.info(f"Clean service {shorten_sid(sid)} successfully.")
